@@ -269,6 +269,33 @@ def rule_A6(text, args, fired):
     fired.append('A6:' + anchor)
     return text
 
+def rule_R8(text, args, fired):
+    """`for P in E { B }` over a Vec-valued E  ->  index loop
+       `let v_it = E; let mut v_i: usize = 0; while v_i < v_it.len() { let P = v_it[v_i]; v_i += 1; B }`
+    (std: iterating a Vec yields its elements in index order; `continue` in B goes to the next element in both forms).
+    args = [anchor = the text `for P in E`]"""
+    anchor = args[0]
+    toks = _tok_code(text)
+    atoks = [t.text for t in _tok_code(anchor)]
+    hits = [i for i in range(len(toks) - len(atoks) + 1) if [t.text for t in toks[i:i+len(atoks)]] == atoks]
+    if len(hits) != 1:
+        raise ExtractError('R8 anchor %r matched %d times' % (anchor, len(hits)))
+    i = hits[0]
+    if toks[i].text != 'for': raise ExtractError('R8 anchor must start with `for`')
+    k = i + 1
+    while toks[k].text != 'in': k += 1
+    pat = text[toks[i+1].start:toks[k-1].end]
+    j = k + 1
+    while j < len(toks):
+        if toks[j].text in ('(', '['): j = match_close(toks, j) + 1; continue
+        if toks[j].text == '{': break
+        j += 1
+    expr = text[toks[k+1].start:toks[j-1].end]
+    head = 'let v_it = %s; let mut v_i: usize = 0; while v_i < v_it.len() ' % expr
+    text = text[:toks[i].start] + head + '{ let %s = v_it[v_i]; v_i += 1; ' % pat + text[toks[j].end:]
+    fired.append('R8:' + anchor)
+    return text
+
 def rule_R6(text, args, fired):
     """closure parameters |_| -> |_e|, |&k| -> |k|"""
     def f(toks, i, src):
@@ -384,8 +411,41 @@ def rule_txt(text, args, fired):
     fired.append('%s:%s=>%s' % (rid, src, dst))
     return text
 
+def rule_txtall(text, args, fired):
+    """like txt but every occurrence (at least one) is rewritten"""
+    rid, src, dst = args
+    stoks = [t.text for t in _tok_code(src)]
+    n = 0
+    while True:
+        toks = _tok_code(text)
+        hits = [i for i in range(len(toks) - len(stoks) + 1) if [t.text for t in toks[i:i+len(stoks)]] == stoks]
+        # skip hits that are already inside a rewritten form (dst contains src): only rewrite left to right once
+        if n == 0 and not hits:
+            raise ExtractError('%s site %r matched 0 times' % (rid, src))
+        if n >= 50 or not hits: break
+        # rewrite the LAST hit so that earlier offsets stay valid and a dst containing src cannot loop forever
+        done_any = False
+        for i in reversed(hits):
+            s0, e0 = toks[i].start, toks[i+len(stoks)-1].end
+            text = text[:s0] + dst + text[e0:]
+            n += 1; done_any = True
+        break
+    fired.append('%s:%s=>%s x%d' % (rid, src, dst, n))
+    return text
+
+def rule_R17lit(text, args, fired):
+    """"literal".into()  ->  v_string_from("literal")   (impl From<&str> for String)"""
+    def f(toks, i, src):
+        t = toks[i]
+        if t.kind == 'str' and i + 4 < len(toks) and toks[i+1].text == '.' and toks[i+2].text == 'into' and toks[i+3].text == '(' and toks[i+4].text == ')':
+            return (t.start, toks[i+4].end, 'v_string_from(%s)' % t.text, i + 5)
+        return None
+    text, n = _sub_tokens(text, f)
+    if n: fired.append('R17litx%d' % n)
+    return text
+
 AUTO_RULES = [('R13', rule_R13), ('R1', rule_R1), ('R2', rule_R2), ('R3', rule_R3), ('R6', rule_R6), ('R7', rule_R7), ('R12', rule_R12)]
-ARG_RULES = {'R4': rule_R4, 'R5': rule_R5, 'R5i': rule_R5i, 'R10': rule_R10, 'R15': rule_R15, 'A6': rule_A6}
+ARG_RULES = {'R4': rule_R4, 'R5': rule_R5, 'R5i': rule_R5i, 'R10': rule_R10, 'R15': rule_R15, 'A6': rule_A6, 'R8': rule_R8}
 
 # ---------------------------------------------------------------- function assembly
 
@@ -468,6 +528,10 @@ def assemble_fn(repo, fs, record, canary=None, stub=False, soft=None):
         try:
             if rule == 'txt':
                 text = rule_txt(text, args, fired)
+            elif rule == 'txtall':
+                text = rule_txtall(text, args, fired)
+            elif rule == 'R17lit':
+                text = rule_R17lit(text, args, fired)
             elif rule in ARG_RULES:
                 text = ARG_RULES[rule](text, args, fired)
             else:
